@@ -28,7 +28,7 @@ ASSUMPTIONS = ["the reference law is DESIGN.md §0 (written from README 'Notatio
                "molecules are identified by RDKit canonical SMILES",
                "targets are forced (zero-width) so that only `choice` consumes randomness; ties within 1e-9 are skipped"]
 
-SIZES = {"quick": {"instances": 220, "max_paths": 600}, "thorough": {"instances": 12000, "max_paths": 6000}}
+SIZES = {"quick": {"instances": 640, "max_paths": 300}, "thorough": {"instances": 12000, "max_paths": 6000}}
 SOFT_DEADLINE = {"quick": 80.0, "thorough": 2400.0}
 TOL = 1e-9
 
@@ -39,7 +39,13 @@ def plan(tier, seed):
 
 @st.composite
 def inst_case(draw):
-    m = draw(molecules(max_blocks=2, max_atoms=3, small=True, plain_ok=False))
+    k = draw(st.integers(0, 5))
+    if k == 0:    # hand-overs between two objects / through connectors, symmetric family (both connector descriptors admissible)
+        m = draw(molecules(max_blocks=2, min_blocks=2, max_atoms=3, small=True, plain_ok=False, fam="$"))
+    elif k == 1:  # hand-overs, directed family, lists in front
+        m = draw(molecules(max_blocks=2, min_blocks=2, max_atoms=3, small=True, plain_ok=False, lists=True))
+    else:
+        m = draw(molecules(max_blocks=2, max_atoms=3, small=True, plain_ok=False))
     fr = [(draw(st.integers(0, 1)), draw(st.sampled_from([-0.5, 0.5, 0.25, 1e-7])), draw(st.integers(0, 3)), 1) for _ in range(3)]
     return m, fr
 
@@ -112,7 +118,7 @@ def one_instance(acc, m, fr, max_paths):
         return
     targets = targets_for(m, fr)
     try:
-        ref, nref = reflaw.enumerate_outcomes(m, targets, max_paths=40 * max_paths)
+        ref, nref = reflaw.enumerate_outcomes(m, targets, max_paths=4 * max_paths)
     except ValueError:
         acc.count("tie_skipped")
         return
